@@ -210,7 +210,7 @@ class Result:
         if f is not None:
             self.known[key] = self.known.get(key, 0) + 1
             return
-        if len(self.violations) < 20:
+        if len(self.violations) < 20 or key not in {k for k, _ in self.violations}:
             p = write_replay(self.prop, dict(case, key=key, property=self.prop))
             self.violations.append((key, p))
         else:
@@ -220,7 +220,12 @@ class Result:
         for key, n in sorted(self.known.items()):
             f = finding_for(self.prop, key)
             print("KNOWN-FINDING: property=%s %s [%s] (%d occurrence(s) this run)" % (self.prop, f["what"], key, n))
-        for key, p in self.violations[:20]:
+        # one line per distinct key first, then further occurrences (at most 20 lines in all)
+        firsts, rest, seen_keys = [], [], set()
+        for key, p in self.violations:
+            (rest if key in seen_keys else firsts).append((key, p))
+            seen_keys.add(key)
+        for key, p in (firsts + rest)[:20]:
             print("VIOLATION property=%s replay=%s" % (self.prop, p))
             print("  (%s)" % key)
         ev = {"property_id": self.prop, "tier": self.tier, "seed": seed(), "level": self.level,
